@@ -827,17 +827,20 @@ void h_quasiquote(void) {
     /* x: the tuple / array, or a bare datum, or a bare (unquote F); built and compiled per shape so that the template stays concrete */
     int shape = nd_int();
     __CPROVER_assume(shape >= 0 && shape <= 2);
-#ifdef SP_QQ_DEBUG
-    shape = 0; is_array = 0;
-#endif
     sp_slotpool_next = 0; sp_nev = 0; sp_ev_pushed = 0;
     JanetFopts opts = sp_opts();
     int depth = nd_int();
     __CPROVER_assume((depth >= 0 && depth <= 4) || depth == JANET_RECURSION_GUARD);
     JanetSlot ret;
     Janet x;
-    if (shape == 0 && is_array) { x.type = JANET_ARRAY; x.as.u64 = 0; x.as.pointer = &sp_qarr; ret = quasiquote(opts, x, depth, 0); }
-    else if (shape == 0) { x = sp_tupv(top); ret = quasiquote(opts, x, depth, 0); }
+    /* one call site per concrete length and sequence type: a symbolic length makes symbolic execution of the recursion explode */
+#define SP_QQ_CALL(len) { sp_qtop.head.length = (len); sp_qarr.count = (len); \
+        if (is_array) { x.type = JANET_ARRAY; x.as.u64 = 0; x.as.pointer = &sp_qarr; ret = quasiquote(opts, x, depth, 0); } \
+        else { x = sp_tupv(top); ret = quasiquote(opts, x, depth, 0); } }
+    if (shape == 0 && L == 0) SP_QQ_CALL(0)
+    else if (shape == 0 && L == 1) SP_QQ_CALL(1)
+    else if (shape == 0 && L == 2) SP_QQ_CALL(2)
+    else if (shape == 0) SP_QQ_CALL(3)
     else if (shape == 1) { x = sp_form(1); if (depth == JANET_RECURSION_GUARD) ret = janetc_quasiquote(opts, 1, &x); else ret = quasiquote(opts, x, depth, 0); }
     else { Janet *el = (Janet *) sp_qun.data; sp_qun.head.length = 2; sp_qun.head.gc.flags = 0; el[0] = sp_symv(sp_sym_unquote); el[1] = sp_form(1); x = sp_tupv(el); ret = quasiquote(opts, x, depth, 0); }
     sp_common_post("quasiquote");
